@@ -171,3 +171,1613 @@ Qed.
 
 Lemma dec_of_N_length n : (length (dec_of_N n) <= S (N.to_nat (N.size n)))%nat.
 Proof. unfold dec_of_N. pose proof (dec_digits_fuel_length (S (N.to_nat (N.size n))) n []). simpl in *. lia. Qed.
+
+(* ============================================================================== *)
+(** * int of a str and str.isdigit *)
+
+Lemma is_digit_range c : is_digit c = true <-> (48 <= c <= 57)%N.
+Proof.
+  unfold is_digit. rewrite andb_true_iff, !N.leb_le. tauto.
+Qed.
+
+Lemma tok_of_digit c : is_digit c = true -> tok_of c = TDigit (c - 48)%N.
+Proof.
+  intros H. pose proof (proj1 (is_digit_range c) H) as [H1 H2].
+  unfold tok_of.
+  replace (c <? 127)%N with true by (symmetry; apply N.ltb_lt; lia).
+  replace (is_ascii_space c) with false.
+  - rewrite H. reflexivity.
+  - symmetry. unfold is_ascii_space. apply orb_false_iff; split.
+    + apply andb_false_iff; right. apply N.leb_gt; lia.
+    + apply N.eqb_neq; lia.
+Qed.
+
+Definition zstep (a : Z) (c : N) : Z := a * 10 + Z.of_N (c - 48).
+
+Lemma scan_ascii_digits s : forall acc cnt, forallb is_digit s = true ->
+  scan_digits (map tok_of s) false acc cnt
+  = Some (fold_left zstep s acc, (cnt + N.of_nat (length s))%N, []).
+Proof.
+  induction s as [|c s IH]; intros acc cnt H.
+  - simpl. rewrite N.add_0_r. reflexivity.
+  - cbn [forallb] in H. apply andb_true_iff in H as [Hc Hs].
+    cbn [map]. rewrite (tok_of_digit c Hc). cbn [scan_digits].
+    rewrite IH by auto. cbn [fold_left length]. unfold zstep at 2.
+    f_equal. f_equal. f_equal. lia.
+Qed.
+
+Lemma zstep_dstep s : forall a, fold_left zstep s (Z.of_N a) = Z.of_N (fold_left dstep s a).
+Proof.
+  induction s as [|c s IH]; intros a; simpl; auto.
+  rewrite <- IH. f_equal. unfold zstep, dstep. lia.
+Qed.
+
+Lemma py_int_ascii_digits s : s <> [] -> forallb is_digit s = true ->
+  py_int s = if (max_str_digits <? N.of_nat (length s))%N then Err ValueErr
+             else Ok (Z.of_N (dec_value s)).
+Proof.
+  intros Hne Hd. destruct s as [|c s]; [congruence|].
+  pose proof Hd as Hd'. cbn [forallb] in Hd'. apply andb_true_iff in Hd' as [Hc Hs].
+  unfold py_int.
+  assert (E : map tok_of (c :: s) = TDigit (c - 48)%N :: map tok_of s)
+    by (cbn [map]; rewrite (tok_of_digit c Hc); reflexivity).
+  assert (Edrop : drop_while is_tspace (map tok_of (c :: s)) = map tok_of (c :: s))
+    by (rewrite E; reflexivity).
+  rewrite Edrop. rewrite E. cbv beta iota. unfold parse_unsigned. rewrite <- E.
+  rewrite (scan_ascii_digits (c :: s) 0 0%N Hd).
+  cbn [forallb]. rewrite N.add_0_l.
+  change 0 with (Z.of_N 0). rewrite zstep_dstep. unfold dec_value.
+  change (fun acc c0 : N => (acc * 10 + (c0 - 48))%N) with dstep.
+  reflexivity.
+Qed.
+
+Lemma py_int_dec_of_N n v : py_int (dec_of_N n) = Ok v -> v = Z.of_N n.
+Proof.
+  rewrite py_int_ascii_digits by (apply dec_of_N_nonnil || apply dec_of_N_digits).
+  destruct (max_str_digits <? _)%N; [discriminate|].
+  rewrite dec_value_dec_of_N. congruence.
+Qed.
+
+Lemma py_int_dec_of_N_small n : (N.size n < 4000)%N -> py_int (dec_of_N n) = Ok (Z.of_N n).
+Proof.
+  intros Hs.
+  rewrite py_int_ascii_digits by (apply dec_of_N_nonnil || apply dec_of_N_digits).
+  pose proof (dec_of_N_length n) as HL.
+  replace (max_str_digits <? N.of_nat (length (dec_of_N n)))%N with false.
+  - rewrite dec_value_dec_of_N. reflexivity.
+  - symmetry. apply N.ltb_ge. unfold max_str_digits. lia.
+Qed.
+
+Lemma decimal_in_hd z zs c :
+  (z <=? c)%N && (c <=? z + 9)%N = true -> decimal_in (z :: zs) c = Some (c - z)%N.
+Proof. intros H. cbn [decimal_in]. rewrite H. reflexivity. Qed.
+
+Lemma py_isdigit_char_ascii c : is_digit c = true -> py_isdigit_char c = true.
+Proof.
+  intros H. apply is_digit_range in H as [H1 H2].
+  unfold py_isdigit_char, py_decimal, decimal_zeros.
+  rewrite decimal_in_hd; auto.
+  apply andb_true_iff; split; apply N.leb_le; lia.
+Qed.
+
+Lemma py_isdigit_ascii s : s <> [] -> forallb is_digit s = true -> py_isdigit s = true.
+Proof.
+  intros Hne H. destruct s as [|c s]; [congruence|]. unfold py_isdigit.
+  apply forallb_true_iff. apply forallb_true_iff in H.
+  eapply Forall_impl; [|exact H]. intros a. apply py_isdigit_char_ascii.
+Qed.
+
+Lemma py_isdigit_dec_of_N n : py_isdigit (dec_of_N n) = true.
+Proof. apply py_isdigit_ascii; [apply dec_of_N_nonnil | apply dec_of_N_digits]. Qed.
+
+(** ** non-negativity: a string without the minus sign never parses to a negative *)
+
+Lemma tok_minus c : tok_of c = TMinus -> c = 45%N.
+Proof.
+  unfold tok_of. destruct (c <? 127)%N.
+  - destruct (is_ascii_space c); [discriminate|].
+    destruct (is_digit c); [discriminate|].
+    destruct (N.eqb c 43); [discriminate|].
+    destruct (N.eqb_spec c 45); [auto|].
+    destruct (N.eqb c 95); discriminate.
+  - destruct (existsb (in_rng c) uni_space_ranges); [discriminate|].
+    destruct (py_decimal c); discriminate.
+Qed.
+
+Lemma scan_digits_nonneg l : forall b acc cnt v c r,
+  scan_digits l b acc cnt = Some (v, c, r) -> 0 <= acc -> 0 <= v.
+Proof.
+  induction l as [|t l IH]; intros b acc cnt v c r H Ha.
+  - simpl in H. destruct b; [discriminate|]. inversion H; subst; auto.
+  - destruct t; cbn [scan_digits] in H;
+      try (destruct b; [discriminate|]; inversion H; subst; auto; fail).
+    + eapply IH; [exact H|]. lia.
+    + destruct b; [discriminate|]. eapply IH; eauto.
+Qed.
+
+Lemma parse_unsigned_nonneg l v : parse_unsigned l = Ok v -> 0 <= v.
+Proof.
+  unfold parse_unsigned. destruct l as [|t l]; [discriminate|].
+  destruct t; try discriminate.
+  destruct (scan_digits _ _ _ _) as [[[v' c] r]|] eqn:E; [|discriminate].
+  destruct (forallb is_tspace r); [|discriminate].
+  destruct (max_str_digits <? c)%N; [discriminate|].
+  intros H; inversion H; subst. eapply scan_digits_nonneg; [exact E|lia].
+Qed.
+
+Lemma drop_while_In {A} (f : A -> bool) l x r : drop_while f l = x :: r -> In x l.
+Proof.
+  induction l as [|y l IH]; simpl; [discriminate|].
+  destruct (f y); intros H; [right; auto|]. inversion H; subst; left; auto.
+Qed.
+
+Lemma py_int_nonneg s v : py_int s = Ok v -> ~ In 45%N s -> 0 <= v.
+Proof.
+  unfold py_int. intros H Hn.
+  destruct (drop_while is_tspace (map tok_of s)) as [|t r] eqn:E.
+  - apply parse_unsigned_nonneg in H; auto.
+  - destruct t; try (apply parse_unsigned_nonneg in H; auto; fail).
+    exfalso. apply drop_while_In in E. apply in_map_iff in E as [c [Hc Hin]].
+    apply tok_minus in Hc. subst; auto.
+Qed.
+
+Lemma isdigit_char_not_minus : py_isdigit_char 45%N = false.
+Proof. vm_compute. reflexivity. Qed.
+
+Lemma py_isdigit_no_minus s : py_isdigit s = true -> ~ In 45%N s.
+Proof.
+  intros H Hin. destruct s as [|c s]; [discriminate|]. unfold py_isdigit in H.
+  rewrite forallb_forall in H. specialize (H _ Hin). rewrite isdigit_char_not_minus in H. discriminate.
+Qed.
+
+Lemma py_int_isdigit_nonneg s v : py_isdigit s = true -> py_int s = Ok v -> 0 <= v.
+Proof. intros H1 H2. eapply py_int_nonneg; eauto. apply py_isdigit_no_minus; auto. Qed.
+
+Lemma parse_unsigned_err l e : parse_unsigned l = Err e -> e = ValueErr.
+Proof.
+  unfold parse_unsigned. destruct l as [|t l]; [congruence|].
+  destruct t; try congruence.
+  destruct (scan_digits _ _ _ _) as [[[v c] r]|]; [|congruence].
+  destruct (forallb is_tspace r); [|congruence].
+  destruct (max_str_digits <? c)%N; congruence.
+Qed.
+
+Lemma py_int_err s e : py_int s = Err e -> e = ValueErr.
+Proof.
+  unfold py_int. destruct (drop_while is_tspace (map tok_of s)) as [|t r].
+  - apply parse_unsigned_err.
+  - destruct t; try apply parse_unsigned_err.
+    destruct (parse_unsigned r) eqn:E; simpl; [discriminate|].
+    intros H; inversion H; subst. eapply parse_unsigned_err; eauto.
+Qed.
+
+(* ============================================================================== *)
+(** * Shape ids *)
+
+Lemma num_ids_app a b : num_ids (a ++ b) = num_ids a ++ num_ids b.
+Proof.
+  induction a as [|s a IH]; simpl; auto.
+  destruct (py_isdigit s); auto. destruct (py_int s); simpl; congruence.
+Qed.
+
+Lemma num_ids_In v ids :
+  In v (num_ids ids) <-> exists s, In s ids /\ py_isdigit s = true /\ py_int s = Ok v.
+Proof.
+  induction ids as [|s ids IH]; simpl.
+  - split; [tauto|]. intros [s [[] _]].
+  - destruct (py_isdigit s) eqn:Ed.
+    + destruct (py_int s) as [w|e] eqn:Ei.
+      * simpl. rewrite IH. split.
+        -- intros [->|[s' [H1 H2]]]; [exists s; auto|exists s'; tauto].
+        -- intros [s' [[->|H1] [H2 H3]]]; [left; congruence|right; eauto].
+      * rewrite IH. split.
+        -- intros [s' [H1 H2]]; exists s'; tauto.
+        -- intros [s' [[->|H1] [H2 H3]]]; [congruence|eauto].
+    + rewrite IH. split.
+      * intros [s' [H1 H2]]; exists s'; tauto.
+      * intros [s' [[->|H1] [H2 H3]]]; [congruence|eauto].
+Qed.
+
+Lemma num_ids_nonneg ids v : In v (num_ids ids) -> 0 <= v.
+Proof.
+  rewrite num_ids_In. intros [s [_ [H1 H2]]]. eapply py_int_isdigit_nonneg; eauto.
+Qed.
+
+(** the list comprehension either succeeds with exactly [num_ids], or raises ValueError
+    because of one identified string *)
+Lemma used_ids_cases ids :
+  (used_ids ids = Ok (num_ids ids) /\
+   forall s, In s ids -> py_isdigit s = true -> exists v, py_int s = Ok v)
+  \/ (used_ids ids = Err ValueErr /\
+      exists s, In s ids /\ py_isdigit s = true /\ py_int s = Err ValueErr).
+Proof.
+  unfold used_ids. induction ids as [|s ids IH]; simpl.
+  - left; split; auto. intros s [].
+  - destruct (py_isdigit s) eqn:Ed; simpl.
+    + destruct (py_int s) as [w|e] eqn:Ei; simpl.
+      * destruct IH as [[H1 H2]|[H1 [s' [Ha [Hb Hc]]]]].
+        -- left. rewrite H1; simpl. split; auto.
+           intros s' [->|Hin] Hd'; eauto.
+        -- right. rewrite H1; simpl. split; auto. exists s'; auto.
+      * right. pose proof (py_int_err _ _ Ei); subst. split; auto. exists s; auto.
+    + destruct IH as [[H1 H2]|[H1 [s' [Ha [Hb Hc]]]]].
+      * left; split; auto. intros s' [->|Hin] Hd'; [congruence|eauto].
+      * right; split; auto. exists s'; auto.
+Qed.
+
+Lemma max_of_used_ge u y : In y u -> y <= max_of_used u.
+Proof.
+  destruct u as [|x r]; [intros []|]. simpl.
+  destruct (max_from_spec x r) as [H1 [H2 _]]. intros [->|H]; auto.
+Qed.
+
+Lemma max_of_used_nonneg u : (forall v, In v u -> 0 <= v) -> 0 <= max_of_used u.
+Proof.
+  destruct u as [|x r]; simpl; [lia|]. intros H.
+  destruct (max_from_spec x r) as [H1 _]. specialize (H x (or_introl eq_refl)). lia.
+Qed.
+
+Lemma show_Z_pos r : 0 < r -> show_Z r = dec_of_N (Z.to_N r).
+Proof. destruct r; try lia. reflexivity. Qed.
+
+(** a numeral already present as an id string is seen by the allocators *)
+Lemma numeral_seen ids r : 0 < r -> In (show_Z r) ids ->
+  (forall s, In s ids -> py_isdigit s = true -> exists v, py_int s = Ok v) ->
+  In r (num_ids ids).
+Proof.
+  intros Hr Hin Hall. rewrite show_Z_pos in Hin by auto.
+  apply num_ids_In. exists (dec_of_N (Z.to_N r)). split; auto.
+  split; [apply py_isdigit_dec_of_N|].
+  destruct (Hall _ Hin (py_isdigit_dec_of_N _)) as [v Hv].
+  rewrite Hv. f_equal. apply py_int_dec_of_N in Hv. lia.
+Qed.
+
+Lemma next_shape_id_max_ok ids r : next_shape_id_max ids = Ok r ->
+  used_ids ids = Ok (num_ids ids) /\ r = max_of_used (num_ids ids) + 1.
+Proof.
+  unfold next_shape_id_max, max_shape_id.
+  destruct (used_ids_cases ids) as [[H1 H2]|[H1 _]]; rewrite H1; simpl; [|discriminate].
+  intros H; inversion H; auto.
+Qed.
+
+Theorem shape_max_fresh ids r : next_shape_id_max ids = Ok r ->
+  0 < r /\ (forall v, In v (num_ids ids) -> v < r) /\ ~ In r (num_ids ids) /\ ~ In (show_Z r) ids.
+Proof.
+  intros H. destruct (next_shape_id_max_ok _ _ H) as [Hu ->].
+  assert (Hlt : forall v, In v (num_ids ids) -> v < max_of_used (num_ids ids) + 1).
+  { intros v Hv. pose proof (max_of_used_ge _ _ Hv). lia. }
+  assert (Hpos : 0 < max_of_used (num_ids ids) + 1).
+  { pose proof (max_of_used_nonneg (num_ids ids) (num_ids_nonneg ids)). lia. }
+  split; auto. split; auto. split.
+  - intros Hin. specialize (Hlt _ Hin). lia.
+  - intros Hin. destruct (used_ids_cases ids) as [[_ H2]|[H1 _]]; [|congruence].
+    pose proof (numeral_seen ids _ Hpos Hin H2) as Hs. specialize (Hlt _ Hs). lia.
+Qed.
+
+(** the exact condition under which the scan raises, and the only exception it raises *)
+Theorem shape_alloc_raises_iff ids :
+  (exists e, next_shape_id_max ids = Err e) <->
+  exists s, In s ids /\ py_isdigit s = true /\ py_int s = Err ValueErr.
+Proof.
+  unfold next_shape_id_max, max_shape_id.
+  destruct (used_ids_cases ids) as [[H1 H2]|[H1 H3]]; rewrite H1; simpl.
+  - split; [intros [e He]; discriminate|].
+    intros [s [Ha [Hb Hc]]]. destruct (H2 s Ha Hb) as [v Hv]. congruence.
+  - split; auto. intros _. exists ValueErr; reflexivity.
+Qed.
+
+Lemma shape_alloc_err_kind ids e : next_shape_id_max ids = Err e -> e = ValueErr.
+Proof.
+  unfold next_shape_id_max, max_shape_id.
+  destruct (used_ids_cases ids) as [[H1 _]|[H1 _]]; rewrite H1; simpl; congruence.
+Qed.
+
+(** ** first-gap allocator *)
+Lemma first_gap_spec fuel : forall n u,
+  match first_gap fuel n u with
+  | Some m => n <= m < n + Z.of_nat fuel /\ ~ In m u /\ (forall k, n <= k < m -> In k u)
+  | None => forall k, n <= k < n + Z.of_nat fuel -> In k u
+  end.
+Proof.
+  induction fuel as [|f IH]; intros n u.
+  - simpl. intros k Hk. lia.
+  - cbn [first_gap]. destruct (memZ n u) eqn:E.
+    + apply memZ_In in E. specialize (IH (n + 1) u).
+      destruct (first_gap f (n + 1) u) as [m|].
+      * destruct IH as [H1 [H2 H3]]. split; [lia|]. split; auto.
+        intros k Hk. destruct (Z.eq_dec k n); [subst; auto|apply H3; lia].
+      * intros k Hk. destruct (Z.eq_dec k n); [subst; auto|apply IH; lia].
+    + split; [lia|]. split.
+      * intros Hin. apply memZ_In in Hin. congruence.
+      * intros k Hk. lia.
+Qed.
+
+Lemma first_gap_total u n : first_gap (S (length u)) n u <> None.
+Proof.
+  intros H. pose proof (first_gap_spec (S (length u)) n u) as Hs. rewrite H in Hs.
+  assert (Hincl : incl (zseq n (S (length u))) u).
+  { intros k Hk. apply zseq_In in Hk. apply Hs. lia. }
+  pose proof (NoDup_incl_length (zseq_NoDup n (S (length u))) Hincl) as Hl.
+  rewrite zseq_length in Hl. lia.
+Qed.
+
+Theorem shape_gap_fresh ids :
+  next_shape_id_gap ids <> Err TypeErr /\
+  forall r, next_shape_id_gap ids = Ok r ->
+    1 <= r /\ ~ In r (num_ids ids) /\ (forall k, 1 <= k < r -> In k (num_ids ids)) /\
+    ~ In (show_Z r) ids.
+Proof.
+  unfold next_shape_id_gap.
+  destruct (used_ids_cases ids) as [[H1 H2]|[H1 _]]; rewrite H1; cbn [bind]; [|split; congruence].
+  pose proof (first_gap_spec (S (length (num_ids ids))) 1 (num_ids ids)) as Hs.
+  pose proof (first_gap_total (num_ids ids) 1) as Ht.
+  destruct (first_gap _ _ _) as [m|]; [|congruence].
+  split; [discriminate|]. intros r Hr; inversion Hr; subst.
+  destruct Hs as [Ha [Hb Hc]]. split; [lia|]. split; auto. split; auto.
+  intros Hin. apply Hb. apply numeral_seen; auto. lia.
+Qed.
+
+Lemma shape_gap_err_kind ids e : next_shape_id_gap ids = Err e -> e = ValueErr.
+Proof.
+  intros H. destruct (shape_gap_fresh ids) as [Hn _].
+  unfold next_shape_id_gap in *.
+  destruct (used_ids_cases ids) as [[H1 _]|[H1 _]]; rewrite H1 in *; cbn [bind] in *; [|congruence].
+  destruct (first_gap _ _ _); congruence.
+Qed.
+
+(** ** time-node ids *)
+Theorem ctn_fresh ids r : next_cTn_id ids = Ok r ->
+  exists u, mapM py_int ids = Ok u /\ u <> [] /\ forall v, In v u -> v < r.
+Proof.
+  unfold next_cTn_id. destruct (mapM py_int ids) as [u|e]; simpl; [|discriminate].
+  destruct u as [|x l]; [discriminate|]. intros H; inversion H; subst.
+  exists (x :: l). split; auto. split; [discriminate|].
+  destruct (max_from_spec x l) as [H1 [H2 _]].
+  intros v [->|Hv]; [lia|specialize (H2 _ Hv); lia].
+Qed.
+
+(* ============================================================================== *)
+(** * The slide-like part as a state machine *)
+
+Definition caches_off (st : sstate) : Prop := Forall (fun c => c = None) (caches st).
+Definition shape_inv (st : sstate) : Prop := caches_off st /\ NoDup (num_ids (shape_ids st)).
+Definition turbo_on (op : sop) : bool := match op with SetTurbo _ true => true | _ => false end.
+Definition is_add (op : sop) : bool := match op with AddMax _ | AddGap => true | _ => false end.
+
+Lemma run_ops_cons st op r :
+  fst (run_ops st (op :: r)) = fst (run_ops (fst (step st op)) r) /\
+  snd (run_ops st (op :: r)) = snd (step st op) :: snd (run_ops (fst (step st op)) r).
+Proof.
+  cbn [run_ops]. destruct (step st op) as [st1 o]. cbn [fst snd].
+  destruct (run_ops st1 r) as [st2 os]. auto.
+Qed.
+
+Lemma set_nth_Forall {A} (P : A -> Prop) n x l : Forall P l -> P x -> Forall P (set_nth n x l).
+Proof.
+  revert n; induction l as [|y l IH]; intros n Hl Hx; destruct n; simpl; auto;
+    inversion Hl; subst; constructor; auto.
+Qed.
+
+Lemma caches_off_nth st h c : caches_off st -> nth_error (caches st) h = Some c -> c = None.
+Proof.
+  intros H Hn. apply nth_error_In in Hn. unfold caches_off in H. rewrite Forall_forall in H. auto.
+Qed.
+
+Lemma num_ids_numeral n : 0 < n -> num_ids [show_Z n] = [n] \/ num_ids [show_Z n] = [].
+Proof.
+  intros Hn. rewrite show_Z_pos by auto. simpl. rewrite py_isdigit_dec_of_N.
+  destruct (py_int (dec_of_N (Z.to_N n))) as [v|e] eqn:E; auto.
+  apply py_int_dec_of_N in E. left. f_equal. lia.
+Qed.
+
+Lemma NoDup_snoc {A} (l : list A) x : NoDup l -> ~ In x l -> NoDup (l ++ [x]).
+Proof.
+  induction l as [|y l IH]; intros H Hn; simpl.
+  - constructor; [intros []|constructor].
+  - inversion H; subst. constructor.
+    + rewrite in_app_iff. simpl. intros [Hi|[->|[]]]; auto. apply Hn; left; auto.
+    + apply IH; auto. intros Hi; apply Hn; right; auto.
+Qed.
+
+Lemma push_shape_inv st n : shape_inv st -> 0 < n -> ~ In n (num_ids (all_ids st)) ->
+  shape_inv (push_shape n st).
+Proof.
+  intros [Hc Hd] Hn Hf. split; [exact Hc|].
+  unfold push_shape; cbn [shape_ids]. rewrite num_ids_app.
+  assert (Hf' : ~ In n (num_ids (shape_ids st))).
+  { intros Hi. apply Hf. unfold all_ids. rewrite num_ids_app, in_app_iff. auto. }
+  destruct (num_ids_numeral n Hn) as [E|E]; rewrite E.
+  - apply NoDup_snoc; auto.
+  - rewrite app_nil_r; auto.
+Qed.
+
+(** nothing ever rewrites an existing id: both populations only grow at the end *)
+Lemma step_frame st op :
+  (exists n1, shape_ids (fst (step st op)) = shape_ids st ++ n1) /\
+  (exists n2, other_ids (fst (step st op)) = other_ids st ++ n2).
+Proof.
+  assert (Hid : forall l : list str, exists n, l = l ++ n) by (intros l; exists []; rewrite app_nil_r; auto).
+  destruct op as [h| |h b| |i]; cbn [step].
+  - unfold alloc_via. destruct (nth_error (caches st) h) as [[c|]|]; cbn [fst];
+      try (split; apply Hid).
+    + unfold push_shape; cbn [fst shape_ids other_ids]. split; [eexists; reflexivity|apply Hid].
+    + destruct (next_shape_id_max (all_ids st)); cbn [bind fst]; [|split; apply Hid].
+      unfold push_shape; cbn [shape_ids other_ids]. split; [eexists; reflexivity|apply Hid].
+  - destruct (next_shape_id_gap (all_ids st)); cbn [fst]; [|split; apply Hid].
+    unfold push_shape; cbn [shape_ids other_ids]. split; [eexists; reflexivity|apply Hid].
+  - destruct (nth_error (caches st) h); cbn [fst]; [|split; apply Hid].
+    destruct b; [destruct (max_shape_id (all_ids st))|]; cbn [fst shape_ids other_ids]; split; apply Hid.
+  - cbn [fst shape_ids other_ids]. split; apply Hid.
+  - destruct (nth_error (shape_ids st) i); cbn [fst]; [|split; apply Hid].
+    destruct (py_int s); cbn [fst]; [|split; apply Hid].
+    destruct (_ && _); cbn [fst shape_ids other_ids]; [|split; apply Hid].
+    split; [apply Hid|eexists; reflexivity].
+Qed.
+
+Lemma step_inv st op : shape_inv st -> turbo_on op = false ->
+  shape_inv (fst (step st op)) /\
+  (forall n, snd (step st op) = Ok n -> is_add op = true ->
+     0 < n /\ ~ In n (num_ids (all_ids st)) /\ ~ In (show_Z n) (all_ids st) /\
+     shape_ids (fst (step st op)) = shape_ids st ++ [show_Z n]).
+Proof.
+  intros Hinv Ht. pose proof Hinv as [Hc Hd].
+  destruct op as [h| |h b| |i]; cbn [step is_add].
+  - unfold alloc_via. destruct (nth_error (caches st) h) as [c|] eqn:En.
+    + rewrite (caches_off_nth _ _ _ Hc En).
+      destruct (next_shape_id_max (all_ids st)) as [n|e] eqn:E; cbn [bind fst snd].
+      * destruct (shape_max_fresh _ _ E) as [H1 [H2 [H3 H4]]].
+        split; [apply push_shape_inv; auto|].
+        intros n' Hn' _. inversion Hn'; subst. auto.
+      * split; auto. intros n' Hn'; discriminate.
+    + cbn [fst snd]. split; auto. intros n' Hn'; discriminate.
+  - destruct (shape_gap_fresh (all_ids st)) as [_ Hg].
+    destruct (next_shape_id_gap (all_ids st)) as [n|e] eqn:E; cbn [fst snd].
+    + destruct (Hg n eq_refl) as [H1 [H2 [H3 H4]]].
+      split; [apply push_shape_inv; auto; lia|].
+      intros n' Hn' _. inversion Hn'; subst. split; [lia|auto].
+    + split; auto. intros n' Hn'; discriminate.
+  - split; [|intros n _ Hf; discriminate].
+    destruct (nth_error (caches st) h); cbn [fst]; auto.
+    destruct b; [discriminate Ht|]. split; cbn [caches shape_ids]; auto.
+    apply set_nth_Forall; auto.
+  - split; [|intros n _ Hf; discriminate]. cbn [fst]. split; cbn [caches shape_ids]; auto.
+    apply Forall_app; split; auto.
+  - split; [|intros n _ Hf; discriminate].
+    destruct (nth_error (shape_ids st) i); cbn [fst]; auto.
+    destruct (py_int s); cbn [fst]; auto.
+    destruct (_ && _); cbn [fst]; auto.
+Qed.
+
+Theorem shape_history ops : forall st,
+  shape_inv st -> forallb (fun o => negb (turbo_on o)) ops = true ->
+  shape_inv (fst (run_ops st ops)) /\
+  (exists n1, shape_ids (fst (run_ops st ops)) = shape_ids st ++ n1) /\
+  (exists n2, other_ids (fst (run_ops st ops)) = other_ids st ++ n2).
+Proof.
+  induction ops as [|op r IH]; intros st Hinv Hops.
+  - cbn [run_ops fst]. split; auto. split; exists []; rewrite app_nil_r; auto.
+  - cbn [forallb] in Hops. apply andb_true_iff in Hops as [Ho Hr]. apply negb_true_iff in Ho.
+    destruct (run_ops_cons st op r) as [E _]. rewrite E.
+    destruct (step_inv st op Hinv Ho) as [Hinv' _].
+    destruct (IH _ Hinv' Hr) as [H1 [[n1 H2] [n2 H3]]].
+    destruct (step_frame st op) as [[m1 F1] [m2 F2]].
+    split; auto. split.
+    + exists (m1 ++ n1). rewrite H2, F1, app_assoc. reflexivity.
+    + exists (m2 ++ n2). rewrite H3, F2, app_assoc. reflexivity.
+Qed.
+
+(** the frame part alone needs no hypothesis (it also holds with turbo on) *)
+Theorem shape_stable ops : forall st,
+  (exists n1, shape_ids (fst (run_ops st ops)) = shape_ids st ++ n1) /\
+  (exists n2, other_ids (fst (run_ops st ops)) = other_ids st ++ n2).
+Proof.
+  induction ops as [|op r IH]; intros st.
+  - cbn [run_ops fst]. split; exists []; rewrite app_nil_r; auto.
+  - destruct (run_ops_cons st op r) as [E _]. rewrite E.
+    destruct (IH (fst (step st op))) as [[n1 H2] [n2 H3]].
+    destruct (step_frame st op) as [[m1 F1] [m2 F2]]. split.
+    + exists (m1 ++ n1). rewrite H2, F1, app_assoc. reflexivity.
+    + exists (m2 ++ n2). rewrite H3, F2, app_assoc. reflexivity.
+Qed.
+
+(** with the turbo cache a group shape (first-gap allocator) and the next shape through
+    the caching proxy get the same id *)
+Definition turbo_witness_ops : list sop := [SetTurbo 0 true; AddGap; AddMax 0].
+Definition fresh_slide : sstate := mkS [[49%N]] [] [None].
+
+Theorem turbo_refuted :
+  exists ops, shape_inv fresh_slide /\
+    snd (run_ops fresh_slide ops) = [Ok 1; Ok 2; Ok 2] /\
+    ~ NoDup (num_ids (shape_ids (fst (run_ops fresh_slide ops)))).
+Proof.
+  exists turbo_witness_ops. split; [|split].
+  - split; [repeat constructor|]. vm_compute. repeat constructor; simpl; tauto.
+  - vm_compute. reflexivity.
+  - assert (E : num_ids (shape_ids (fst (run_ops fresh_slide turbo_witness_ops))) = [1; 2; 2])
+      by (vm_compute; reflexivity).
+    rewrite E. intros H. inversion H as [|? ? _ H2]; subst.
+    inversion H2 as [|? ? H3 _]; subst. apply H3. left; reflexivity.
+Qed.
+
+(* ============================================================================== *)
+(** * Slide ids *)
+
+Lemma insertZ_perm x l : Permutation (insertZ x l) (x :: l).
+Proof.
+  induction l as [|y l IH]; simpl; auto.
+  destruct (x <=? y); auto.
+  eapply perm_trans; [apply perm_skip; exact IH|apply perm_swap].
+Qed.
+
+Lemma sortZ_perm l : Permutation (sortZ l) l.
+Proof.
+  induction l as [|x l IH]; simpl; auto.
+  eapply perm_trans; [apply insertZ_perm|apply perm_skip; exact IH].
+Qed.
+
+Lemma insertZ_sorted x l : StronglySorted Z.le l -> StronglySorted Z.le (insertZ x l).
+Proof.
+  induction l as [|y l IH]; intros H; simpl.
+  - constructor; constructor.
+  - inversion H as [|? ? Hs Hf]; subst. destruct (x <=? y) eqn:E.
+    + apply Z.leb_le in E. constructor; auto. constructor; auto.
+      eapply Forall_impl; [|exact Hf]. intros a Ha; lia.
+    + apply Z.leb_gt in E. constructor; auto.
+      assert (Hp : Forall (Z.le y) (x :: l)) by (constructor; [lia|auto]).
+      rewrite Forall_forall in *. intros a Ha. apply Hp.
+      eapply Permutation_in; [apply insertZ_perm|exact Ha].
+Qed.
+
+Lemma sortZ_sorted l : StronglySorted Z.le (sortZ l).
+Proof. induction l; simpl; [constructor|apply insertZ_sorted; auto]. Qed.
+
+Lemma sorted_le_NoDup_lt l : StronglySorted Z.le l -> NoDup l -> StronglySorted Z.lt l.
+Proof.
+  induction l as [|x l IH]; intros Hs Hn; [constructor|].
+  inversion Hs as [|? ? Hs' Hf]; inversion Hn as [|? ? Hx Hn']; subst.
+  constructor; auto. rewrite Forall_forall in *. intros a Ha.
+  specialize (Hf a Ha). assert (a <> x) by (intros ->; auto). lia.
+Qed.
+
+Lemma enum_first_neq_stop c l : enum_first_neq c l = Err StopIter <-> l = zseq c (length l).
+Proof.
+  revert c; induction l as [|u r IH]; intros c; simpl.
+  - split; auto.
+  - destruct (Z.eqb_spec c u) as [->|Hn].
+    + rewrite IH. split; [intros H; f_equal; exact H|intros H; injection H; auto].
+    + split; [discriminate|]. intros H; inversion H; congruence.
+Qed.
+
+Lemma enum_first_neq_err c l e : enum_first_neq c l = Err e -> e = StopIter.
+Proof.
+  revert c; induction l as [|u r IH]; intros c; simpl; [congruence|].
+  destruct (c =? u); [apply IH|discriminate].
+Qed.
+
+Lemma enum_first_neq_ok l : forall c r, StronglySorted Z.lt l -> (forall x, In x l -> c <= x) ->
+  enum_first_neq c l = Ok r ->
+  c <= r /\ ~ In r l /\ (exists u, In u l /\ r < u) /\ (forall k, c <= k < r -> In k l).
+Proof.
+  induction l as [|u t IH]; intros c r Hs Hlb; simpl; [discriminate|].
+  inversion Hs as [|? ? Hs' Hf]; subst. rewrite Forall_forall in Hf.
+  destruct (Z.eqb_spec c u) as [->|Hn].
+  - intros H. apply IH in H; auto.
+    + destruct H as [H1 [H2 [[w [Hw1 Hw2]] H4]]]. split; [lia|]. split.
+      * intros [->|Hi]; [lia|auto].
+      * split; [exists w; auto|].
+        intros k Hk. destruct (Z.eq_dec k u); [left; auto|right; apply H4; lia].
+    + intros x Hx. specialize (Hf x Hx). lia.
+  - intros H; inversion H; subst. pose proof (Hlb u (or_introl eq_refl)).
+    split; [lia|]. split.
+    + intros [->|Hi]; [congruence|]. specialize (Hf r Hi). lia.
+    + split; [exists u; split; [left; auto|lia]|]. intros k Hk; lia.
+Qed.
+
+Definition valid_id (i : Z) : Prop := MIN_SLIDE_ID <= i <= MAX_SLIDE_ID.
+
+Lemma slide_id_valid_iff i : slide_id_valid i = true <-> valid_id i.
+Proof. unfold slide_id_valid, valid_id. rewrite andb_true_iff, !Z.leb_le. tauto. Qed.
+
+Definition valid_used (used : list Z) : list Z := filter slide_id_valid used.
+
+(** General form: only the in-range ids need to be distinct. *)
+Theorem slide_id_Z_gen used : NoDup (valid_used used) ->
+  match next_slide_id_Z used with
+  | Ok r => valid_id r /\ ~ In r used /\
+            (max_from (MIN_SLIDE_ID - 1) used < MAX_SLIDE_ID -> r = max_from (MIN_SLIDE_ID - 1) used + 1)
+  | Err e => e = StopIter /\ MAX_SLIDE_ID <= max_from (MIN_SLIDE_ID - 1) used /\
+             valid_used used <> [] /\
+             sortZ (valid_used used) = zseq MIN_SLIDE_ID (length (valid_used used))
+  end.
+Proof.
+  intros Hnd. unfold next_slide_id_Z. fold (valid_used used).
+  destruct (max_from_spec (MIN_SLIDE_ID - 1) used) as [M1 [M2 M3]].
+  set (M := max_from (MIN_SLIDE_ID - 1) used) in *.
+  destruct (Z.leb_spec (M + 1) MAX_SLIDE_ID) as [Hle|Hgt].
+  - unfold valid_id, MIN_SLIDE_ID, MAX_SLIDE_ID in *. split; [lia|]. split; [|auto].
+    intros Hin. specialize (M2 _ Hin). lia.
+  - assert (Hperm := sortZ_perm (valid_used used)).
+    assert (Hsorted : StronglySorted Z.lt (sortZ (valid_used used))).
+    { apply sorted_le_NoDup_lt; [apply sortZ_sorted|].
+      eapply Permutation_NoDup; [apply Permutation_sym; exact Hperm|exact Hnd]. }
+    assert (Hlb : forall x, In x (sortZ (valid_used used)) -> MIN_SLIDE_ID <= x).
+    { intros x Hx. eapply Permutation_in in Hx; [|exact Hperm].
+      unfold valid_used in Hx. apply filter_In in Hx as [_ Hx]. apply slide_id_valid_iff in Hx.
+      unfold valid_id in Hx; lia. }
+    destruct (sortZ (valid_used used)) as [|v0 vs] eqn:Es.
+    + assert (Hempty : valid_used used = []).
+      { apply Permutation_nil in Hperm; auto. }
+      split; [unfold valid_id, MIN_SLIDE_ID, MAX_SLIDE_ID; lia|]. split; [|intros; lia].
+      intros Hin. assert (Hv : In 256 (valid_used used)).
+      { unfold valid_used. apply filter_In; split; auto. }
+      rewrite Hempty in Hv; auto.
+    + destruct (enum_first_neq MIN_SLIDE_ID (v0 :: vs)) as [r|e] eqn:Ee.
+      * apply enum_first_neq_ok in Ee; auto.
+        destruct Ee as [H1 [H2 [[w [Hw1 Hw2]] _]]].
+        assert (Hwv : valid_id w).
+        { eapply Permutation_in in Hw1; [|exact Hperm]. unfold valid_used in Hw1.
+          apply filter_In in Hw1 as [_ Hw1]. apply slide_id_valid_iff; auto. }
+        assert (Hrv : valid_id r) by (unfold valid_id in *; lia).
+        split; auto. split; [|intros; lia].
+        intros Hin. apply H2. eapply Permutation_in; [apply Permutation_sym; exact Hperm|].
+        unfold valid_used. apply filter_In; split; auto. apply slide_id_valid_iff; auto.
+      * pose proof (enum_first_neq_err _ _ _ Ee); subst.
+        apply enum_first_neq_stop in Ee.
+        split; auto. split; [lia|]. split.
+        -- intros Hc. rewrite Hc in Hperm. apply Permutation_sym, Permutation_nil in Hperm. discriminate.
+        -- rewrite Ee at 1. f_equal. rewrite <- Es.
+           apply Permutation_length. apply sortZ_perm.
+Qed.
+
+Lemma filter_all {A} (f : A -> bool) l : (forall x, In x l -> f x = true) -> filter f l = l.
+Proof.
+  induction l as [|x l IH]; intros H; simpl; auto.
+  rewrite (H x (or_introl eq_refl)). f_equal. apply IH. intros; apply H; right; auto.
+Qed.
+
+(** The property's own domain: distinct ids, all in 256..2147483647. *)
+Theorem slide_id_Z used : NoDup used -> (forall i, In i used -> valid_id i) ->
+  match next_slide_id_Z used with
+  | Ok r => valid_id r /\ ~ In r used
+  | Err e => e = StopIter /\ (forall k, valid_id k -> In k used)
+  end.
+Proof.
+  intros Hnd Hv.
+  assert (Hf : valid_used used = used).
+  { apply filter_all. intros x Hx. apply slide_id_valid_iff; auto. }
+  pose proof (slide_id_Z_gen used) as H. rewrite Hf in H. specialize (H Hnd).
+  destruct (next_slide_id_Z used) as [r|e].
+  - destruct H as [H1 [H2 _]]; auto.
+  - destruct H as [H1 [H2 [H3 H4]]]. split; auto.
+    destruct (max_from_spec (MIN_SLIDE_ID - 1) used) as [_ [_ M3]].
+    assert (Hmax : In (max_from (MIN_SLIDE_ID - 1) used) used).
+    { destruct M3 as [M3|M3]; auto. unfold MIN_SLIDE_ID, MAX_SLIDE_ID in *; lia. }
+    pose proof (Hv _ Hmax) as Hmv.
+    assert (HM : In MAX_SLIDE_ID (sortZ used)).
+    { eapply Permutation_in; [apply Permutation_sym; apply sortZ_perm|].
+      replace MAX_SLIDE_ID with (max_from (MIN_SLIDE_ID - 1) used); auto.
+      unfold valid_id in Hmv; lia. }
+    rewrite H4 in HM. apply zseq_In in HM.
+    intros k Hk. eapply Permutation_in; [apply sortZ_perm|].
+    rewrite H4. apply zseq_In. unfold valid_id in Hk. lia.
+Qed.
+
+(** an id above the upper bound makes the fall-back search run off its list *)
+Theorem slide_id_oob_stop : next_slide_id_Z [256; 2147483648] = Err StopIter.
+Proof. vm_compute. reflexivity. Qed.
+
+(** duplicates among the pre-existing ids can make the fall-back return a used id *)
+Theorem slide_id_dup_refuted :
+  exists used r, (forall i, In i used -> valid_id i) /\ next_slide_id_Z used = Ok r /\ In r used.
+Proof.
+  exists [256; 256; 257; 2147483647], 257. split; [|split].
+  - intros i Hi. unfold valid_id, MIN_SLIDE_ID, MAX_SLIDE_ID. simpl in Hi. lia.
+  - vm_compute. reflexivity.
+  - simpl; auto.
+Qed.
+
+(** ** over the attribute strings, and over histories of add_slide *)
+
+Lemma size_small n : (n < 2 ^ 31)%N -> (N.size n < 4000)%N.
+Proof.
+  intros H. destruct (N.eq_dec n 0) as [->|Hn]; [simpl; lia|].
+  rewrite N.size_log2 by auto.
+  assert (N.log2 n < 31)%N by (apply N.log2_lt_pow2; lia). lia.
+Qed.
+
+Lemma py_int_show_valid r : valid_id r -> py_int (show_Z r) = Ok r.
+Proof.
+  unfold valid_id, MIN_SLIDE_ID, MAX_SLIDE_ID. intros H.
+  rewrite show_Z_pos by lia. rewrite py_int_dec_of_N_small.
+  - f_equal. lia.
+  - apply size_small. change (2 ^ 31)%N with 2147483648%N. lia.
+Qed.
+
+Definition slides_good (ids : list str) : Prop :=
+  exists vals, mapM py_int ids = Ok vals /\ NoDup vals /\ (forall i, In i vals -> valid_id i).
+
+Theorem slide_add ids vals :
+  mapM py_int ids = Ok vals -> NoDup vals -> (forall i, In i vals -> valid_id i) ->
+  match add_sldId ids with
+  | Ok ids' => exists r, next_slide_id ids = Ok r /\ ids' = ids ++ [show_Z r] /\ valid_id r /\
+                         ~ In r vals /\ mapM py_int ids' = Ok (vals ++ [r])
+  | Err e => e = StopIter /\ next_slide_id ids = Err StopIter /\ (forall k, valid_id k -> In k vals)
+  end.
+Proof.
+  intros Hm Hnd Hv. unfold add_sldId, next_slide_id. rewrite Hm. cbn [bind].
+  pose proof (slide_id_Z vals Hnd Hv) as H.
+  destruct (next_slide_id_Z vals) as [r|e]; cbn [bind].
+  - destruct H as [H1 H2]. rewrite (proj2 (slide_id_valid_iff r) H1).
+    exists r. split; auto. split; auto. split; auto. split; auto.
+    apply mapM_app; auto. simpl. rewrite py_int_show_valid by auto. reflexivity.
+  - destruct H as [-> H]. auto.
+Qed.
+
+Lemma add_slides_S k ids :
+  add_slides (S k) ids =
+  match add_sldId ids with
+  | Ok ids' => (fst (add_slides k ids'), next_slide_id ids :: snd (add_slides k ids'))
+  | Err e => (fst (add_slides k ids), Err e :: snd (add_slides k ids))
+  end.
+Proof.
+  cbn [add_slides]. destruct (add_sldId ids) as [ids'|e].
+  - destruct (add_slides k ids'); reflexivity.
+  - destruct (add_slides k ids); reflexivity.
+Qed.
+
+Theorem slide_history n : forall ids, slides_good ids ->
+  slides_good (fst (add_slides n ids)) /\
+  (exists new, fst (add_slides n ids) = ids ++ new) /\
+  Forall (fun o => match o with Ok r => valid_id r | Err e => e = StopIter end)
+         (snd (add_slides n ids)).
+Proof.
+  induction n as [|k IH]; intros ids Hg.
+  - cbn [add_slides fst snd]. split; auto. split; [exists []; rewrite app_nil_r; auto|constructor].
+  - rewrite add_slides_S. destruct Hg as [vals [Hm [Hnd Hv]]].
+    pose proof (slide_add ids vals Hm Hnd Hv) as Ha.
+    destruct (add_sldId ids) as [ids'|e]; cbn [fst snd].
+    + destruct Ha as [r [Hr [-> [Hrv [Hrn Hm']]]]].
+      assert (Hg' : slides_good (ids ++ [show_Z r])).
+      { exists (vals ++ [r]). split; auto. split; [apply NoDup_snoc; auto|].
+        intros i Hi. apply in_app_iff in Hi as [Hi|[<-|[]]]; auto. }
+      destruct (IH _ Hg') as [H1 [[new H2] H3]]. split; auto. split.
+      * exists ([show_Z r] ++ new). rewrite H2, app_assoc. reflexivity.
+      * constructor; auto. rewrite Hr. auto.
+    + destruct Ha as [-> [_ _]].
+      assert (Hg' : slides_good ids) by (exists vals; auto).
+      destruct (IH _ Hg') as [H1 [H2 H3]]. split; auto.
+Qed.
+
+(* ============================================================================== *)
+(** * Relationship ids *)
+
+Lemma rId_name_inj a b : rId_name a = rId_name b -> a = b.
+Proof. unfold rId_name. intros H. apply app_inv_head in H. apply dec_of_N_inj; auto. Qed.
+
+Lemma NoDup_map_inj {A B} (f : A -> B) l :
+  (forall a b, f a = f b -> a = b) -> NoDup l -> NoDup (map f l).
+Proof.
+  intros Hinj. induction l as [|x l IH]; intros H; simpl; [constructor|].
+  inversion H; subst. constructor; auto.
+  intros Hin. apply in_map_iff in Hin as [y [Hy Hin]]. apply Hinj in Hy; subst; auto.
+Qed.
+
+(** pigeonhole: n distinct candidate names cannot all be among fewer than n keys *)
+Lemma pigeon (f : N -> str) (keys : list str) n :
+  (forall a b, f a = f b -> a = b) ->
+  (forall j, (1 <= j <= N.of_nat n)%N -> In (f j) keys) -> (n <= length keys)%nat.
+Proof.
+  intros Hinj Hall.
+  set (l := map (fun i => f (N.of_nat i)) (seq 1 n)).
+  assert (Hnd : NoDup l).
+  { apply NoDup_map_inj; [|apply seq_NoDup].
+    intros a b Hab. apply Hinj in Hab. lia. }
+  assert (Hincl : incl l keys).
+  { intros x Hx. apply in_map_iff in Hx as [i [<- Hi]]. apply in_seq in Hi. apply Hall. lia. }
+  pose proof (NoDup_incl_length Hnd Hincl) as H. unfold l in H.
+  rewrite map_length, seq_length in H. exact H.
+Qed.
+
+Lemma rid_down_spec n keys :
+  match rid_down n keys with
+  | Ok r => ~ In r keys /\ exists k, (1 <= k <= N.of_nat n)%N /\ r = rId_name k /\
+                                     forall j, (k < j <= N.of_nat n)%N -> In (rId_name j) keys
+  | Err e => e = OtherErr /\ forall j, (1 <= j <= N.of_nat n)%N -> In (rId_name j) keys
+  end.
+Proof.
+  induction n as [|k IH].
+  - simpl. split; auto. intros j Hj; lia.
+  - cbn [rid_down]. destruct (mem_str (rId_name (N.of_nat (S k))) keys) eqn:E.
+    + apply mem_str_In in E. destruct (rid_down k keys) as [r|e].
+      * destruct IH as [H1 [m [H2 [H3 H4]]]]. split; auto. exists m. split; [lia|]. split; auto.
+        intros j Hj. destruct (N.eq_dec j (N.of_nat (S k))) as [->|Hne]; auto. apply H4; lia.
+      * destruct IH as [H1 H2]. split; auto.
+        intros j Hj. destruct (N.eq_dec j (N.of_nat (S k))) as [->|Hne]; auto. apply H2; lia.
+    + split.
+      * intros Hin. apply mem_str_In in Hin. congruence.
+      * exists (N.of_nat (S k)). split; [lia|]. split; auto. intros j Hj; lia.
+Qed.
+
+Theorem rid_fresh keys :
+  exists r, next_rId keys = Ok r /\ ~ In r keys /\
+    exists k, (1 <= k <= N.of_nat (S (length keys)))%N /\ r = rId_name k /\
+              forall j, (k < j <= N.of_nat (S (length keys)))%N -> In (rId_name j) keys.
+Proof.
+  unfold next_rId. pose proof (rid_down_spec (S (length keys)) keys) as H.
+  destruct (rid_down (S (length keys)) keys) as [r|e].
+  - exists r. destruct H as [H1 H2]. auto.
+  - exfalso. destruct H as [_ H].
+    pose proof (pigeon rId_name keys (S (length keys)) rId_name_inj H). lia.
+Qed.
+
+Lemma filter_neq_In a x l :
+  In x (filter (fun y => negb (str_eqb a y)) l) <-> In x l /\ x <> a.
+Proof.
+  rewrite filter_In. split; intros [H1 H2]; split; auto.
+  - intros ->. rewrite str_eqb_refl in H2. discriminate.
+  - apply negb_true_iff. destruct (str_eqb_spec a x); congruence.
+Qed.
+
+Lemma dedup_In x l : In x (dedup l) <-> In x l.
+Proof.
+  induction l as [|a l IH]; simpl; [tauto|].
+  rewrite filter_neq_In, IH. split.
+  - intros [->|[H _]]; auto.
+  - intros [->|H]; auto. destruct (str_eqb_spec a x); [left; auto|right; split; congruence].
+Qed.
+
+Lemma NoDup_filter {A} (f : A -> bool) l : NoDup l -> NoDup (filter f l).
+Proof.
+  induction l as [|x l IH]; intros H; simpl; [constructor|].
+  inversion H; subst. destruct (f x); auto. constructor; auto.
+  intros Hin. apply filter_In in Hin as [Hin _]. auto.
+Qed.
+
+Lemma dedup_NoDup l : NoDup (dedup l).
+Proof.
+  induction l as [|a l IH]; simpl; constructor.
+  - intros H. apply filter_neq_In in H as [_ H]. congruence.
+  - apply NoDup_filter; auto.
+Qed.
+
+(** what the loader keeps: the distinct Id values; the next rId is new for the XML too *)
+Theorem rid_fresh_xml xml_ids :
+  NoDup (load_keys xml_ids) /\
+  exists r, next_rId (load_keys xml_ids) = Ok r /\ ~ In r xml_ids.
+Proof.
+  split; [apply dedup_NoDup|].
+  destruct (rid_fresh (load_keys xml_ids)) as [r [H1 [H2 _]]].
+  exists r. split; auto. intros Hin. apply H2. apply dedup_In; auto.
+Qed.
+
+(** ** relationship collection over histories *)
+Definition rel_inv (st : rstate) : Prop := NoDup (rkeys st) /\ incl (refs st) (rkeys st).
+
+Lemma find_target_In t l k : find_target t l = Some k -> In (k, t) l.
+Proof.
+  induction l as [|[k' t'] l IH]; simpl; [discriminate|].
+  destruct (str_eqb_spec t t') as [->|Hn].
+  - intros H; inversion H; subst; auto.
+  - intros H; right; auto.
+Qed.
+
+Lemma count_str_zero x l : count_str x l = O <-> ~ In x l.
+Proof.
+  unfold count_str. induction l as [|y l IH]; simpl; [tauto|].
+  destruct (str_eqb_spec x y) as [->|Hn]; simpl.
+  - split; [discriminate|]. intros H; exfalso; apply H; auto.
+  - rewrite IH. split; intros H; [intros [Hc|Hc]; [congruence|auto]|intros Hc; apply H; auto].
+Qed.
+
+Lemma count_remove_nth x l : forall i,
+  nth_error l i = Some x -> count_str x l = S (count_str x (remove_nth i l)).
+Proof.
+  unfold count_str. induction l as [|y l IH]; intros i H; destruct i; simpl in *; try discriminate.
+  - inversion H; subst. rewrite str_eqb_refl. reflexivity.
+  - destruct (str_eqb x y); simpl; rewrite (IH _ H); reflexivity.
+Qed.
+
+Lemma remove_nth_incl {A} (l : list A) i : incl (remove_nth i l) l.
+Proof.
+  revert i; induction l as [|y l IH]; intros i x Hx; destruct i; simpl in *; auto.
+  destruct Hx as [->|Hx]; auto. right. eapply IH; eauto.
+Qed.
+
+Lemma map_fst_filter_NoDup {A B} (f : A * B -> bool) l :
+  NoDup (map fst l) -> NoDup (map fst (filter f l)).
+Proof.
+  induction l as [|p l IH]; intros H; simpl; [constructor|].
+  simpl in H. inversion H; subst. destruct (f p); auto. simpl. constructor; auto.
+  intros Hin. apply in_map_iff in Hin as [q [Hq Hin]]. apply filter_In in Hin as [Hin _].
+  apply H2. rewrite <- Hq. apply in_map; auto.
+Qed.
+
+(** One step from any consistent collection: consistency is kept; a Relate either reuses
+    the relationship of the same target or adds one whose rId is neither a key nor
+    referenced anywhere in the part; a DropRef removes a relationship only when the
+    reference being deleted was its last one, and touches no other entry. *)
+Theorem rid_step st op : rel_inv st ->
+  rel_inv (fst (rstep st op)) /\
+  match op with
+  | Relate t =>
+      exists k, snd (rstep st op) = Ok k /\ refs (fst (rstep st op)) = refs st ++ [k] /\
+        ((In (k, t) (rels st) /\ rels (fst (rstep st op)) = rels st) \/
+         (~ In k (rkeys st) /\ ~ In k (refs st) /\ rels (fst (rstep st op)) = rels st ++ [(k, t)]))
+  | DropRef i =>
+      forall k t, In (k, t) (rels st) ->
+        In (k, t) (rels (fst (rstep st op))) \/
+        (nth_error (refs st) i = Some k /\ ~ In k (refs (fst (rstep st op))))
+  end.
+Proof.
+  intros [Hnd Hincl]. destruct op as [t|i]; cbn [rstep].
+  - destruct (find_target t (rels st)) as [k|] eqn:Ef.
+    + cbn [fst snd rels refs]. apply find_target_In in Ef. split.
+      * split; auto. intros x Hx. apply in_app_iff in Hx as [Hx|[<-|[]]]; auto.
+        unfold rkeys. apply in_map_iff. exists (k, t); auto.
+      * exists k. split; auto.
+    + destruct (rid_fresh (rkeys st)) as [k [Hk [Hf _]]]. rewrite Hk. cbn [fst snd rels refs].
+      split.
+      * split.
+        -- unfold rkeys; cbn [rels]. rewrite map_app. simpl. apply NoDup_snoc; auto.
+        -- unfold rkeys; cbn [rels]. rewrite map_app. simpl.
+           intros x Hx. apply in_app_iff. apply in_app_iff in Hx as [Hx|[<-|[]]]; [left; auto|right; left; auto].
+      * exists k. split; auto. split; auto. right. split; auto.
+  - destruct (nth_error (refs st) i) as [k|] eqn:En; cbn [fst]; [|split; [split; auto|auto]].
+    destruct (Nat.ltb_spec (count_str k (refs st)) 2) as [Hlt|Hge].
+    + destruct (mem_str k (rkeys st)) eqn:Em; cbn [fst rels refs]; [|split; [split; auto|auto]].
+      pose proof (count_remove_nth k (refs st) i En) as Hc.
+      assert (Hnone : ~ In k (remove_nth i (refs st))) by (apply count_str_zero; lia).
+      split.
+      * split.
+        -- unfold rkeys; cbn [rels]. apply map_fst_filter_NoDup; auto.
+        -- unfold rkeys; cbn [rels refs]. intros x Hx.
+           assert (x <> k) by (intros ->; auto).
+           apply remove_nth_incl in Hx. apply Hincl in Hx. unfold rkeys in Hx.
+           apply in_map_iff in Hx as [[k' t'] [Hk' Hin]]. simpl in Hk'; subst.
+           apply in_map_iff. exists (x, t'). split; auto. apply filter_In; split; auto.
+           simpl. apply negb_true_iff. destruct (str_eqb_spec k x); congruence.
+      * intros k' t' Hin. destruct (str_eqb_spec k k') as [->|Hne].
+        -- right; auto.
+        -- left. apply filter_In; split; auto. simpl. apply negb_true_iff.
+           destruct (str_eqb_spec k k'); congruence.
+    + cbn [fst rels refs]. split; [|auto]. split; auto.
+      intros x Hx. apply remove_nth_incl in Hx. auto.
+Qed.
+
+Lemma rrun_cons st op r :
+  fst (rrun st (op :: r)) = fst (rrun (fst (rstep st op)) r) /\
+  snd (rrun st (op :: r)) = snd (rstep st op) :: snd (rrun (fst (rstep st op)) r).
+Proof.
+  cbn [rrun]. destruct (rstep st op) as [st1 o]. cbn [fst snd].
+  destruct (rrun st1 r) as [st2 os]. auto.
+Qed.
+
+Theorem rid_history ops : forall st, rel_inv st -> rel_inv (fst (rrun st ops)).
+Proof.
+  induction ops as [|op r IH]; intros st H; [exact H|].
+  destruct (rrun_cons st op r) as [E _]. rewrite E. apply IH.
+  apply (rid_step st op H).
+Qed.
+
+(* ============================================================================== *)
+(** * Part names *)
+
+Lemma tmpl_apply_inj pre post a b : tmpl_apply pre post a = tmpl_apply pre post b -> a = b.
+Proof.
+  unfold tmpl_apply. intros H. apply app_inv_head in H. apply app_inv_tail in H.
+  apply dec_of_N_inj; auto.
+Qed.
+
+Lemma find2_app a b post : forall pre i,
+  exists k, find2 a b (pre ++ a :: b :: post) i = Some k /\ (i <= k <= i + length pre)%nat.
+Proof.
+  induction pre as [|x pre IH]; intros i.
+  - simpl. rewrite !N.eqb_refl. simpl. exists i. split; auto. lia.
+  - destruct (IH (S i)) as [k [Hk Hb]].
+    change ((x :: pre) ++ a :: b :: post) with (x :: (pre ++ a :: b :: post)).
+    destruct (pre ++ a :: b :: post) as [|y r] eqn:E.
+    + destruct pre; discriminate.
+    + cbn [find2]. destruct (N.eqb x a && N.eqb y b).
+      * exists i. split; auto. simpl; lia.
+      * exists k. split; auto. simpl; lia.
+Qed.
+
+Lemma starts_with_firstn k (s rest : str) : starts_with (firstn k s) (s ++ rest) = true.
+Proof.
+  revert k; induction s as [|x s IH]; intros k; destruct k; simpl; auto.
+  rewrite N.eqb_refl. simpl. apply IH.
+Qed.
+
+Lemma dec_42 : dec_of_N 42 = s_42.
+Proof. vm_compute. reflexivity. Qed.
+
+Lemma tmpl_prefix_starts pre post n :
+  starts_with (tmpl_prefix pre post) (tmpl_apply pre post n) = true.
+Proof.
+  unfold tmpl_prefix, tmpl_apply. rewrite dec_42. unfold s_42.
+  change ([52%N; 50%N] ++ post) with (52%N :: 50%N :: post).
+  destruct (find2_app 52%N 50%N post pre O) as [k [Hk Hb]]. rewrite Hk.
+  rewrite firstn_app. replace (k - length pre)%nat with O by lia.
+  rewrite firstn_O, app_nil_r. apply starts_with_firstn.
+Qed.
+
+Lemma pn_down_spec n pre post keys :
+  match pn_down n pre post keys with
+  | Ok r => ~ In r keys /\ exists k, (1 <= k <= N.of_nat n)%N /\ r = tmpl_apply pre post k
+  | Err e => (e = OtherErr /\ forall j, (1 <= j <= N.of_nat n)%N -> In (tmpl_apply pre post j) keys)
+             \/ ((e = ValueErr \/ e = IndexErr) /\ forall r, pre <> c_slash :: r)
+  end.
+Proof.
+  induction n as [|k IH].
+  - simpl. left. split; auto. intros j Hj; lia.
+  - cbn [pn_down]. destruct (mem_str (tmpl_apply pre post (N.of_nat (S k))) keys) eqn:E.
+    + apply mem_str_In in E. destruct (pn_down k pre post keys) as [r|e].
+      * destruct IH as [H1 [m [H2 H3]]]. split; auto. exists m. split; [lia|auto].
+      * destruct IH as [[H1 H2]|H]; [left|right; auto]. split; auto.
+        intros j Hj. destruct (N.eq_dec j (N.of_nat (S k))) as [->|Hne]; auto. apply H2; lia.
+    + remember (tmpl_apply pre post (N.of_nat (S k))) as cand eqn:Ec.
+      unfold packuri_new. destruct cand as [|d r].
+      * right. split; auto. intros r Hr. subst pre. unfold tmpl_apply in Ec. discriminate.
+      * destruct (is_slash d) eqn:Ed.
+        -- split.
+           ++ intros Hin. apply mem_str_In in Hin. congruence.
+           ++ exists (N.of_nat (S k)). split; [lia|auto].
+        -- right. split; auto. intros r' Hr. subst pre. unfold tmpl_apply in Ec.
+           change ((c_slash :: r') ++ dec_of_N (N.of_nat (S k)) ++ post)
+             with (c_slash :: (r' ++ dec_of_N (N.of_nat (S k)) ++ post)) in Ec.
+           inversion Ec; subst d. unfold is_slash in Ed. rewrite N.eqb_refl in Ed. discriminate.
+Qed.
+
+(** next_partname: the name returned is not the name of any part of the package (not
+    only of those sharing the prefix); the final raise is unreachable; the only failure
+    is PackURI refusing a template that does not begin with a slash. *)
+Theorem partname_fresh pre post names :
+  match next_partname pre post names with
+  | Ok r => ~ In r names /\ exists k, (1 <= k)%N /\ r = tmpl_apply pre post k
+  | Err e => (e = ValueErr \/ e = IndexErr) /\ forall r, pre <> c_slash :: r
+  end.
+Proof.
+  unfold next_partname.
+  set (keys := dedup (filter (starts_with (tmpl_prefix pre post)) names)).
+  pose proof (pn_down_spec (S (length keys)) pre post keys) as H.
+  destruct (pn_down (S (length keys)) pre post keys) as [r|e].
+  - destruct H as [H1 [k [H2 H3]]]. split; [|exists k; split; [lia|auto]].
+    intros Hin. apply H1. unfold keys. apply dedup_In. apply filter_In. split; auto.
+    subst r. apply tmpl_prefix_starts.
+  - destruct H as [[_ H]|H]; auto. exfalso.
+    pose proof (pigeon (tmpl_apply pre post) keys (S (length keys)) (tmpl_apply_inj pre post) H). lia.
+Qed.
+
+Lemma partname_ok pre' post names :
+  exists r, next_partname (c_slash :: pre') post names = Ok r.
+Proof.
+  pose proof (partname_fresh (c_slash :: pre') post names) as H.
+  destruct (next_partname (c_slash :: pre') post names) as [r|e]; eauto.
+  destruct H as [_ H]. exfalso. eapply H; reflexivity.
+Qed.
+
+(** ** image / media indices *)
+
+Lemma first_below_fresh l : forall i, StronglySorted Z.le l ->
+  i <= first_below i l /\ ~ In (first_below i l) l.
+Proof.
+  induction l as [|x r IH]; intros i Hs; simpl.
+  - split; [lia|auto].
+  - inversion Hs as [|? ? Hs' Hf]; subst. rewrite Forall_forall in Hf.
+    destruct (Z.ltb_spec i x) as [Hlt|Hge].
+    + split; [lia|]. intros [->|Hin]; [lia|]. specialize (Hf _ Hin). lia.
+    + destruct (IH (i + 1) Hs') as [H1 H2]. split; [lia|].
+      intros [->|Hin]; [lia|auto].
+Qed.
+
+Lemma first_below_first_free l : forall i, StronglySorted Z.lt l -> (forall x, In x l -> i <= x) ->
+  forall k, i <= k < first_below i l -> In k l.
+Proof.
+  induction l as [|x r IH]; intros i Hs Hlb k Hk; simpl in *.
+  - lia.
+  - inversion Hs as [|? ? Hs' Hf]; subst. rewrite Forall_forall in Hf.
+    destruct (Z.ltb_spec i x) as [Hlt|Hge]; [lia|].
+    pose proof (Hlb x (or_introl eq_refl)). assert (x = i) by lia. subst x.
+    destruct (Z.eq_dec k i); [left; auto|right].
+    apply (IH (i + 1)); auto; [|lia]. intros y Hy. specialize (Hf _ Hy). lia.
+Qed.
+
+Lemma opts_some_In {A} (x : A) l : In x (opts_some l) <-> In (Some x) l.
+Proof.
+  induction l as [|[y|] l IH]; simpl; [tauto| |].
+  - rewrite IH. split; intros [H|H]; auto; [left; congruence|inversion H; auto].
+  - rewrite IH. split; [auto|intros [H|H]; [discriminate|auto]].
+Qed.
+
+Theorem image_idx_fresh names :
+  1 <= next_image_idx names /\ ~ In (next_image_idx names) (image_idxs names).
+Proof.
+  unfold next_image_idx.
+  destruct (first_below_fresh (sortZ (image_idxs names)) 1 (sortZ_sorted _)) as [H1 H2].
+  split; auto. intros Hin. apply H2.
+  eapply Permutation_in; [apply Permutation_sym; apply sortZ_perm|exact Hin].
+Qed.
+
+Theorem image_idx_first_free names :
+  NoDup (image_idxs names) -> (forall x, In x (image_idxs names) -> 1 <= x) ->
+  forall k, 1 <= k < next_image_idx names -> In k (image_idxs names).
+Proof.
+  intros Hnd Hlb k Hk. unfold next_image_idx in Hk.
+  eapply Permutation_in; [apply sortZ_perm|].
+  apply (first_below_first_free (sortZ (image_idxs names)) 1); auto.
+  - apply sorted_le_NoDup_lt; [apply sortZ_sorted|].
+    eapply Permutation_NoDup; [apply Permutation_sym; apply sortZ_perm|auto].
+  - intros x Hx. apply Hlb. eapply Permutation_in; [apply sortZ_perm|auto].
+Qed.
+
+Definition s_ppt : str := [112; 112; 116]%N.
+Definition s_media : str := [109; 101; 100; 105; 97]%N.
+Definition s_image : str := [105; 109; 97; 103; 101]%N.
+
+Lemma digits_no_dot s : forallb is_digit s = true -> no_dot s = true.
+Proof.
+  unfold no_dot. intros H. apply forallb_true_iff. apply forallb_true_iff in H.
+  eapply Forall_impl; [|exact H]. intros c Hc. apply is_digit_range in Hc.
+  unfold is_dot, c_dot. apply negb_true_iff. apply N.eqb_neq. lia.
+Qed.
+
+Lemma media_name_idx (stem : str) k e :
+  stem <> [] -> forallb is_alpha_ascii stem = true -> no_dot stem = true ->
+  no_dot e = true -> forallb not_slash e = true ->
+  idx (c_slash :: s_ppt ++ c_slash :: s_media ++ c_slash :: stem ++ dec_of_N k ++ c_dot :: e) = Some k.
+Proof.
+  intros Hs1 Hs2 Hs3 He1 He2.
+  pose proof (idx_some [s_ppt; s_media] stem (dec_of_N k) [] e) as H.
+  rewrite dec_value_dec_of_N in H.
+  assert (Hr : render ([s_ppt; s_media] ++ [stem ++ dec_of_N k ++ [] ++ c_dot :: e])
+               = c_slash :: s_ppt ++ c_slash :: s_media ++ c_slash :: stem ++ dec_of_N k ++ c_dot :: e).
+  { unfold render. cbn [app join_with s_ppt s_media s_slash]. reflexivity. }
+  rewrite Hr in H. apply H; auto.
+  - repeat constructor.
+  - apply dec_of_N_nonnil.
+  - apply dec_of_N_digits.
+  - rewrite app_nil_r. unfold no_dot in *. rewrite forallb_app, Hs3. simpl.
+    apply (digits_no_dot _ (dec_of_N_digits k)).
+Qed.
+
+(** the new image name is not the name of any existing part, whatever the existing
+    names look like (extension without slash or dot, as PIL-derived extensions are) *)
+Theorem image_name_fresh ext names r :
+  no_dot ext = true -> forallb not_slash ext = true ->
+  next_image_partname ext names = Ok r -> ~ In r names.
+Proof.
+  intros He1 He2. unfold next_image_partname.
+  destruct (image_idx_fresh names) as [Hpos Hfresh].
+  set (i := next_image_idx names) in *.
+  assert (Es : s_img_prefix ++ show_Z i ++ [c_dot] ++ ext
+               = c_slash :: s_ppt ++ c_slash :: s_media ++ c_slash :: s_image ++ dec_of_N (Z.to_N i) ++ c_dot :: ext).
+  { rewrite show_Z_pos by lia. reflexivity. }
+  rewrite Es. unfold packuri_new. simpl app. unfold is_slash, c_slash. rewrite N.eqb_refl.
+  intros H; inversion H; subst r. clear H. intros Hin. apply Hfresh.
+  unfold image_idxs. apply in_map_iff. exists (Z.to_N i). split; [lia|].
+  apply opts_some_In. apply in_map_iff.
+  eexists. split; [|apply filter_In; split; [exact Hin|reflexivity]].
+  change (idx (c_slash :: s_ppt ++ c_slash :: s_media ++ c_slash :: s_image ++ dec_of_N (Z.to_N i) ++ c_dot :: ext)
+          = Some (Z.to_N i)).
+  apply media_name_idx; auto; try reflexivity. discriminate.
+Qed.
+
+Theorem media_idx_spec names :
+  match next_media_idx names with
+  | Ok i => 1 <= i /\
+            ~ In i (map Z.of_N (opts_some (map idx (filter (starts_with s_med_prefix) names))))
+  | Err e => e = TypeErr /\ exists n, In n names /\ starts_with s_med_prefix n = true /\ idx n = None
+  end.
+Proof.
+  unfold next_media_idx.
+  set (l := map idx (filter (starts_with s_med_prefix) names)).
+  destruct (forallb (fun o => match o with Some _ => true | None => false end) l) eqn:E.
+  - destruct (first_below_fresh (sortZ (map Z.of_N (opts_some l))) 1 (sortZ_sorted _)) as [H1 H2].
+    split; auto. intros Hin. apply H2.
+    eapply Permutation_in; [apply Permutation_sym; apply sortZ_perm|exact Hin].
+  - split; auto.
+    assert (Hex : exists o, In o l /\ o = None).
+    { clear -E. induction l as [|[x|] l IH]; simpl in E; [discriminate| |].
+      - destruct (IH E) as [o [H1 H2]]. exists o; split; [right|]; auto.
+      - exists None; split; [left|]; auto. }
+    destruct Hex as [o [Hin ->]]. unfold l in Hin. apply in_map_iff in Hin as [n [Hn Hin]].
+    apply filter_In in Hin as [H1 H2]. exists n; auto.
+Qed.
+
+Definition s_media_stem : str := [109; 101; 100; 105; 97]%N.
+
+Theorem media_name_fresh ext names r :
+  no_dot ext = true -> forallb not_slash ext = true ->
+  next_media_partname ext names = Ok r -> ~ In r names.
+Proof.
+  intros He1 He2. unfold next_media_partname.
+  pose proof (media_idx_spec names) as Hs.
+  destruct (next_media_idx names) as [i|e]; cbn [bind]; [|discriminate].
+  destruct Hs as [Hpos Hfresh].
+  assert (Es : s_med_prefix ++ show_Z i ++ [c_dot] ++ ext
+               = c_slash :: s_ppt ++ c_slash :: s_media ++ c_slash :: s_media_stem ++ dec_of_N (Z.to_N i) ++ c_dot :: ext).
+  { rewrite show_Z_pos by lia. reflexivity. }
+  rewrite Es. unfold packuri_new. simpl app. unfold is_slash, c_slash. rewrite N.eqb_refl.
+  intros H; inversion H; subst r. clear H. intros Hin. apply Hfresh.
+  apply in_map_iff. exists (Z.to_N i). split; [lia|].
+  apply opts_some_In. apply in_map_iff.
+  eexists. split; [|apply filter_In; split; [exact Hin|reflexivity]].
+  change (idx (c_slash :: s_ppt ++ c_slash :: s_media ++ c_slash :: s_media_stem ++ dec_of_N (Z.to_N i) ++ c_dot :: ext)
+          = Some (Z.to_N i)).
+  apply media_name_idx; auto; try reflexivity. discriminate.
+Qed.
+
+(* ============================================================================== *)
+(** * rename_slide_parts *)
+
+Lemma set_nth_length {A} (l : list A) : forall n x, length (set_nth n x l) = length l.
+Proof. induction l as [|y l IH]; intros n x; destruct n; simpl; auto. Qed.
+
+Lemma set_nth_same {A} (l : list A) : forall n x, (n < length l)%nat -> nth_error (set_nth n x l) n = Some x.
+Proof.
+  induction l as [|y l IH]; intros n x H; destruct n; simpl in *; try lia; auto.
+  apply IH; lia.
+Qed.
+
+Lemma set_nth_other {A} (l : list A) : forall n x q, n <> q -> nth_error (set_nth n x l) q = nth_error l q.
+Proof.
+  induction l as [|y l IH]; intros n x q H; destruct n, q; simpl; auto; try congruence.
+Qed.
+
+Lemma slide_name_inj a b : slide_name a = slide_name b -> a = b.
+Proof. apply tmpl_apply_inj. Qed.
+
+Lemma Forall2_len {A B} (R : A -> B -> Prop) l1 l2 : Forall2 R l1 l2 -> length l1 = length l2.
+Proof. induction 1; simpl; auto. Qed.
+
+(** [targets]: the part index each listed rId resolves to *)
+Definition resolves (prels : list (str * nat)) (rIds : list str) (targets : list nat) : Prop :=
+  Forall2 (fun r p => lookup_rel r prels = Some p) rIds targets.
+
+Lemma rename_from_spec prels : forall rIds targets i names,
+  resolves prels rIds targets -> NoDup targets -> (forall p, In p targets -> (p < length names)%nat) ->
+  exists names', rename_from i prels rIds names = Ok names' /\
+    length names' = length names /\
+    (forall j p, nth_error targets j = Some p -> nth_error names' p = Some (slide_name (i + N.of_nat j)%N)) /\
+    (forall q, ~ In q targets -> nth_error names' q = nth_error names q).
+Proof.
+  induction rIds as [|r rs IH]; intros targets i names Hres Hnd Hrange.
+  - inversion Hres; subst. exists names. simpl. split; auto. split; auto. split; auto.
+    intros j p Hj. destruct j; discriminate.
+  - inversion Hres as [|? p ? ts Hr Hrest]; subst. inversion Hnd as [|? ? Hp Hnd']; subst.
+    cbn [rename_from]. rewrite Hr.
+    destruct (IH ts (i + 1)%N (set_nth p (slide_name i) names) Hrest Hnd') as [names' [H1 [H2 [H3 H4]]]].
+    { intros q Hq. rewrite set_nth_length. apply Hrange; right; auto. }
+    exists names'. split; auto. split; [rewrite H2; apply set_nth_length|]. split.
+    + intros j q Hj. destruct j as [|j'].
+      * simpl in Hj. inversion Hj; subst q. rewrite (H4 p Hp).
+        rewrite set_nth_same by (apply Hrange; left; auto). f_equal. f_equal. lia.
+      * simpl in Hj. rewrite (H3 j' q Hj). f_equal. f_equal. lia.
+    + intros q Hq. rewrite H4 by (intros Hc; apply Hq; right; auto).
+      apply set_nth_other. intros ->. apply Hq; left; auto.
+Qed.
+
+Lemma rename_from_keyerr prels : forall rIds i names,
+  (exists r, In r rIds /\ lookup_rel r prels = None) -> rename_from i prels rIds names = Err KeyErr.
+Proof.
+  induction rIds as [|r rs IH]; intros i names [x [Hin Hx]]; [destruct Hin|].
+  cbn [rename_from]. destruct (lookup_rel r prels) as [p|] eqn:E; auto.
+  apply IH. destruct Hin as [->|Hin]; [congruence|eauto].
+Qed.
+
+(** After prs.slides: the listed slide parts are slide1..n in presentation order, pairwise
+    distinct, every other part keeps its name. *)
+Theorem rename_listed prels rIds targets names :
+  resolves prels rIds targets -> NoDup targets -> (forall p, In p targets -> (p < length names)%nat) ->
+  exists names', rename_slide_parts prels rIds names = Ok names' /\
+    length names' = length names /\
+    (forall j p, nth_error targets j = Some p ->
+                 nth_error names' p = Some (slide_name (N.of_nat j + 1)%N)) /\
+    (forall q, ~ In q targets -> nth_error names' q = nth_error names q) /\
+    (forall j1 j2 p1 p2 s, nth_error targets j1 = Some p1 -> nth_error targets j2 = Some p2 ->
+        nth_error names' p1 = Some s -> nth_error names' p2 = Some s -> j1 = j2).
+Proof.
+  intros Hres Hnd Hrange. unfold rename_slide_parts.
+  destruct (rename_from_spec prels rIds targets 1%N names Hres Hnd Hrange) as [names' [H1 [H2 [H3 H4]]]].
+  exists names'. split; auto. split; auto. split; [|split; auto].
+  - intros j p Hj. rewrite (H3 j p Hj). f_equal. f_equal. lia.
+  - intros j1 j2 p1 p2 s Hj1 Hj2 Hs1 Hs2.
+    rewrite (H3 _ _ Hj1) in Hs1. rewrite (H3 _ _ Hj2) in Hs2.
+    assert (E : slide_name (1 + N.of_nat j1)%N = slide_name (1 + N.of_nat j2)%N) by congruence.
+    apply slide_name_inj in E. lia.
+Qed.
+
+(** Exactly when two parts end up with the same name: two unlisted parts already shared
+    a name, or an unlisted part is called slideK.xml with K among the listed positions. *)
+Theorem rename_collision_iff prels rIds targets names names' :
+  resolves prels rIds targets -> NoDup targets -> (forall p, In p targets -> (p < length names)%nat) ->
+  rename_slide_parts prels rIds names = Ok names' ->
+  ((exists p q s, p <> q /\ nth_error names' p = Some s /\ nth_error names' q = Some s) <->
+   ((exists p q s, p <> q /\ ~ In p targets /\ ~ In q targets /\
+                   nth_error names p = Some s /\ nth_error names q = Some s) \/
+    (exists q j, ~ In q targets /\ (j < length targets)%nat /\
+                 nth_error names q = Some (slide_name (N.of_nat j + 1)%N)))).
+Proof.
+  intros Hres Hnd Hrange Hok.
+  destruct (rename_listed prels rIds targets names Hres Hnd Hrange) as [n2 [E [HL [H3 [H4 H5]]]]].
+  rewrite Hok in E. inversion E; subst n2. clear E.
+  assert (Hdec : forall p, In p targets \/ ~ In p targets).
+  { intros p. destruct (in_dec Nat.eq_dec p targets); auto. }
+  split.
+  - intros [p [q [s [Hpq [Hp Hq]]]]].
+    destruct (Hdec p) as [Ip|Ip], (Hdec q) as [Iq|Iq].
+    + exfalso. apply In_nth_error in Ip as [j1 Hj1]. apply In_nth_error in Iq as [j2 Hj2].
+      pose proof (H5 _ _ _ _ _ Hj1 Hj2 Hp Hq). subst j2. congruence.
+    + right. apply In_nth_error in Ip as [j Hj]. exists q, j. split; auto. split.
+      * apply nth_error_Some. congruence.
+      * rewrite <- (H4 q Iq). rewrite Hq. rewrite (H3 _ _ Hj) in Hp. congruence.
+    + right. apply In_nth_error in Iq as [j Hj]. exists p, j. split; auto. split.
+      * apply nth_error_Some. congruence.
+      * rewrite <- (H4 p Ip). rewrite Hp. rewrite (H3 _ _ Hj) in Hq. congruence.
+    + left. exists p, q, s. rewrite <- (H4 p Ip), <- (H4 q Iq). auto.
+  - intros [[p [q [s [Hpq [Ip [Iq [Hp Hq]]]]]]]|[q [j [Iq [Hj Hq]]]]].
+    + exists p, q, s. rewrite (H4 p Ip), (H4 q Iq). auto.
+    + destruct (nth_error targets j) as [p|] eqn:Ej; [|apply nth_error_None in Ej; lia].
+      exists p, q, (slide_name (N.of_nat j + 1)%N). split.
+      * intros ->. apply Iq. eapply nth_error_In; eauto.
+      * split; [apply (H3 _ _ Ej)|]. rewrite (H4 q Iq). auto.
+Qed.
+
+(** The name add_slide will use next is already taken exactly when an unlisted part
+    carries it. *)
+Theorem next_slide_partname_collision prels rIds targets names names' q :
+  resolves prels rIds targets -> NoDup targets -> (forall p, In p targets -> (p < length names)%nat) ->
+  rename_slide_parts prels rIds names = Ok names' ->
+  (nth_error names' q = Some (next_slide_partname (length rIds)) <->
+   ~ In q targets /\ nth_error names q = Some (next_slide_partname (length rIds))).
+Proof.
+  intros Hres Hnd Hrange Hok.
+  destruct (rename_listed prels rIds targets names Hres Hnd Hrange) as [n2 [E [HL [H3 [H4 H5]]]]].
+  rewrite Hok in E. inversion E; subst n2. clear E.
+  assert (Hlen : length rIds = length targets) by (eapply Forall2_len; eauto).
+  split.
+  - intros Hq. destruct (in_dec Nat.eq_dec q targets) as [Iq|Iq].
+    + exfalso. apply In_nth_error in Iq as [j Hj]. rewrite (H3 _ _ Hj) in Hq.
+      unfold next_slide_partname in Hq.
+      assert (Hs : slide_name (N.of_nat j + 1)%N = slide_name (N.of_nat (length rIds) + 1)%N) by congruence.
+      apply slide_name_inj in Hs.
+      assert (j < length targets)%nat by (apply nth_error_Some; congruence). lia.
+    + split; auto. rewrite <- (H4 q Iq). auto.
+  - intros [Iq Hq]. rewrite (H4 q Iq). auto.
+Qed.
+
+Definition unlisted_witness_names : list str :=
+  [slide_name 1; slide_name 2].
+Definition unlisted_witness_prels : list (str * nat) := [(rId_name 1, O); (rId_name 2, 1%nat)].
+
+(** a deck whose presentation part is related to two slide parts but lists only the first:
+    all names distinct, yet the next slide name is already in use *)
+Theorem slide_partname_unlisted_refuted :
+  exists prels rIds names names',
+    NoDup names /\ rename_slide_parts prels rIds names = Ok names' /\
+    In (next_slide_partname (length rIds)) names'.
+Proof.
+  exists unlisted_witness_prels, [rId_name 1], unlisted_witness_names, unlisted_witness_names.
+  split; [|split].
+  - unfold unlisted_witness_names. constructor; [|constructor; [intros []|constructor]].
+    intros [H|[]]. apply slide_name_inj in H. discriminate.
+  - vm_compute. reflexivity.
+  - vm_compute. right; left; reflexivity.
+Qed.
+
+Theorem rename_keyerr prels rIds names :
+  (exists r, In r rIds /\ lookup_rel r prels = None) ->
+  rename_slide_parts prels rIds names = Err KeyErr.
+Proof. apply rename_from_keyerr. Qed.
+
+(* ============================================================================== *)
+(** * Exactly which strings pass str.isdigit and are then refused by int *)
+
+Definition nrange (lo hi : N) : list N :=
+  map (fun k => (lo + N.of_nat k)%N) (seq 0 (N.to_nat (hi + 1 - lo))).
+
+Lemma nrange_In lo hi c : (lo <= c <= hi)%N -> In c (nrange lo hi).
+Proof.
+  intros H. unfold nrange. apply in_map_iff. exists (N.to_nat (c - lo)). split; [lia|].
+  apply in_seq. lia.
+Qed.
+
+Definition is_dec (c : N) : bool := match py_decimal c with Some _ => true | None => false end.
+
+Definition tok_ok (c : N) : bool :=
+  match py_decimal c with
+  | Some d => match tok_of c with TDigit d' => N.eqb d d' | _ => false end
+  | None => if py_isdigit_char c then match tok_of c with TBad => true | _ => false end else true
+  end.
+
+Lemma tok_ok_ascii : forallb tok_ok (nrange 0 126) = true.
+Proof. vm_compute. reflexivity. Qed.
+
+Lemma tok_ok_spaces :
+  forallb tok_ok (flat_map (fun r => nrange (fst r) (snd r)) uni_space_ranges) = true.
+Proof. vm_compute. reflexivity. Qed.
+
+Lemma existsb_in_rng_In c rs :
+  existsb (in_rng c) rs = true -> In c (flat_map (fun r => nrange (fst r) (snd r)) rs).
+Proof.
+  intros H. apply existsb_exists in H as [r [Hr Hc]]. apply in_flat_map. exists r. split; auto.
+  unfold in_rng in Hc. apply andb_true_iff in Hc as [H1 H2].
+  apply N.leb_le in H1, H2. apply nrange_In; lia.
+Qed.
+
+Lemma tok_ok_all c : tok_ok c = true.
+Proof.
+  destruct (N.ltb_spec c 127) as [Hlt|Hge].
+  - pose proof tok_ok_ascii as H. rewrite forallb_forall in H. apply H. apply nrange_In; lia.
+  - destruct (existsb (in_rng c) uni_space_ranges) eqn:Es.
+    + pose proof tok_ok_spaces as H. rewrite forallb_forall in H. apply H.
+      apply existsb_in_rng_In; auto.
+    + unfold tok_ok, tok_of. replace (c <? 127)%N with false by (symmetry; apply N.ltb_ge; auto).
+      rewrite Es. destruct (py_decimal c) as [d|]; [apply N.eqb_refl|].
+      destruct (py_isdigit_char c); reflexivity.
+Qed.
+
+Lemma tok_of_dec c : is_dec c = true -> exists d, tok_of c = TDigit d.
+Proof.
+  unfold is_dec. pose proof (tok_ok_all c) as H. unfold tok_ok in H.
+  destruct (py_decimal c) as [d|]; [|discriminate]. intros _.
+  destruct (tok_of c); try discriminate. eauto.
+Qed.
+
+Lemma tok_of_nondec c : py_isdigit_char c = true -> is_dec c = false -> tok_of c = TBad.
+Proof.
+  unfold is_dec. pose proof (tok_ok_all c) as H. unfold tok_ok in H.
+  destruct (py_decimal c) as [d|]; [discriminate|]. intros Hd _. rewrite Hd in H.
+  destruct (tok_of c); try discriminate. reflexivity.
+Qed.
+
+Lemma scan_isdigit s : forall acc cnt, forallb py_isdigit_char s = true ->
+  exists v, scan_digits (map tok_of s) false acc cnt
+            = Some (v, (cnt + N.of_nat (length (take_while is_dec s)))%N,
+                    map tok_of (drop_while is_dec s)).
+Proof.
+  induction s as [|c s IH]; intros acc cnt H.
+  - simpl. exists acc. rewrite N.add_0_r. reflexivity.
+  - cbn [forallb] in H. apply andb_true_iff in H as [Hc Hs]. cbn [map take_while drop_while].
+    destruct (is_dec c) eqn:Ed.
+    + destruct (tok_of_dec c Ed) as [d Hd]. rewrite Hd. cbn [scan_digits].
+      destruct (IH (acc * 10 + Z.of_N d) (cnt + 1)%N Hs) as [v Hv]. exists v. rewrite Hv.
+      cbn [length]. f_equal. f_equal. f_equal. lia.
+    + rewrite (tok_of_nondec c Hc Ed). cbn [scan_digits map length]. exists acc.
+      rewrite (tok_of_nondec c Hc Ed). rewrite N.add_0_r. reflexivity.
+Qed.
+
+Theorem isdigit_int_fails_iff s : py_isdigit s = true ->
+  (py_int s = Err ValueErr <->
+   (forallb is_dec s = false \/ (max_str_digits < N.of_nat (length s))%N)).
+Proof.
+  intros Hd. destruct s as [|c s]; [discriminate|]. unfold py_isdigit in Hd.
+  pose proof Hd as Hd'. cbn [forallb] in Hd'. apply andb_true_iff in Hd' as [Hc Hs].
+  unfold py_int. cbn [map].
+  destruct (is_dec c) eqn:Ec.
+  - destruct (tok_of_dec c Ec) as [d Ht]. rewrite Ht. cbn [drop_while is_tspace].
+    unfold parse_unsigned. rewrite <- Ht.
+    change (tok_of c :: map tok_of s) with (map tok_of (c :: s)).
+    destruct (scan_isdigit (c :: s) 0 0%N Hd) as [v Hv]. rewrite Hv. rewrite N.add_0_l.
+    destruct (forallb is_dec (c :: s)) eqn:Eall.
+    + rewrite (take_while_all _ _ Eall), (drop_while_all _ _ Eall). cbn [map forallb].
+      destruct (N.ltb_spec max_str_digits (N.of_nat (length (c :: s)))) as [Hlt|Hge].
+      * split; auto.
+      * split; [discriminate|]. intros [H|H]; [discriminate|lia].
+    + split; [auto|intros _].
+      destruct (drop_while is_dec (c :: s)) as [|c' r] eqn:Edrop.
+      * exfalso. pose proof (take_drop_while is_dec (c :: s)) as Htd. rewrite Edrop, app_nil_r in Htd.
+        assert (Hall : forallb is_dec (take_while is_dec (c :: s)) = true).
+        { clear. induction (c :: s) as [|x l IH]; simpl; auto. destruct (is_dec x) eqn:E; simpl; auto.
+          rewrite E; auto. }
+        rewrite Htd in Hall. congruence.
+      * assert (Hc' : is_dec c' = false).
+        { clear -Edrop. induction (c :: s) as [|x l IH]; simpl in Edrop; [discriminate|].
+          destruct (is_dec x) eqn:E; auto. inversion Edrop; subst; auto. }
+        assert (Hin : In c' (c :: s)) by (eapply drop_while_In; eauto).
+        rewrite forallb_forall in Hd. specialize (Hd _ Hin).
+        cbn [map]. rewrite (tok_of_nondec c' Hd Hc'). reflexivity.
+  - rewrite (tok_of_nondec c Hc Ec). cbn [drop_while is_tspace forallb]. rewrite Ec. cbn [andb].
+    split; auto.
+Qed.
+
+Theorem image_idx_both names :
+  (1 <= next_image_idx names /\ ~ In (next_image_idx names) (image_idxs names)) /\
+  (NoDup (image_idxs names) -> (forall x, In x (image_idxs names) -> 1 <= x) ->
+   forall k, 1 <= k < next_image_idx names -> In k (image_idxs names)).
+Proof. split; [exact (image_idx_fresh names)|exact (image_idx_first_free names)]. Qed.
+
+Theorem shape_nondecimal_crash :
+  next_shape_id_max [[49%N]; [178%N]] = Err ValueErr /\
+  next_shape_id_gap [[49%N]; [178%N]] = Err ValueErr.
+Proof. split; vm_compute; reflexivity. Qed.
+
+(* ============================================================================== *)
+(** * What turbo mode does guarantee: one proxy, only max-allocator additions *)
+
+Definition turbo_inv (st : sstate) (c : Z) : Prop :=
+  nth_error (caches st) 0 = Some (Some c) /\
+  (forall v, In v (num_ids (all_ids st)) -> v <= c) /\
+  NoDup (num_ids (shape_ids st)) /\ 0 <= c.
+
+Lemma turbo_step st c : turbo_inv st c ->
+  turbo_inv (fst (step st (AddMax 0))) (c + 1) /\ snd (step st (AddMax 0)) = Ok (c + 1).
+Proof.
+  intros [Hc [Hle [Hnd Hpos]]]. cbn [step]. unfold alloc_via. rewrite Hc. cbn [fst snd].
+  split; [|reflexivity]. unfold push_shape. cbn [shape_ids other_ids caches].
+  destruct (caches st) as [|c0 cs] eqn:Ec; [discriminate|].
+  assert (Hnum : forall v, In v (num_ids [show_Z (c + 1)]) -> v = c + 1).
+  { intros v Hv. destruct (num_ids_numeral (c + 1) ltac:(lia)) as [E|E]; rewrite E in Hv;
+      [destruct Hv as [<-|[]]; auto|destruct Hv]. }
+  split; [reflexivity|]. split; [|split; [|lia]].
+  - intros v Hv. unfold all_ids in *. cbn [shape_ids other_ids] in *.
+    rewrite !num_ids_app in Hv. rewrite num_ids_app in Hle.
+    rewrite !in_app_iff in Hv. destruct Hv as [[Hv|Hv]|Hv].
+    + specialize (Hle v). rewrite in_app_iff in Hle. specialize (Hle (or_introl Hv)). lia.
+    + apply Hnum in Hv. lia.
+    + specialize (Hle v). rewrite in_app_iff in Hle. specialize (Hle (or_intror Hv)). lia.
+  - cbn [shape_ids]. rewrite num_ids_app.
+    assert (Hf : ~ In (c + 1) (num_ids (shape_ids st))).
+    { intros Hi. specialize (Hle (c + 1)). unfold all_ids in Hle. rewrite num_ids_app, in_app_iff in Hle.
+      specialize (Hle (or_introl Hi)). lia. }
+    destruct (num_ids_numeral (c + 1) ltac:(lia)) as [E|E]; rewrite E.
+    + apply NoDup_snoc; auto.
+    + rewrite app_nil_r; auto.
+Qed.
+
+Theorem turbo_single_proxy k : forall st c, turbo_inv st c ->
+  exists c', turbo_inv (fst (run_ops st (repeat (AddMax 0) k))) c' /\
+  Forall (fun o => exists n, o = Ok n) (snd (run_ops st (repeat (AddMax 0) k))).
+Proof.
+  induction k as [|k IH]; intros st c H.
+  - exists c. cbn [repeat run_ops fst snd]. split; auto.
+  - cbn [repeat]. destruct (run_ops_cons st (AddMax 0) (repeat (AddMax 0) k)) as [E1 E2].
+    rewrite E1, E2. destruct (turbo_step st c H) as [H1 H2].
+    destruct (IH _ _ H1) as [c' [H3 H4]]. exists c'. split; auto.
+    constructor; auto. rewrite H2. eauto.
+Qed.
+
+(** enabling turbo on the only proxy of a consistent part establishes the invariant *)
+Lemma turbo_enable st m : shape_inv st -> caches st = [None] -> max_shape_id (all_ids st) = Ok m ->
+  turbo_inv (fst (step st (SetTurbo 0 true))) m.
+Proof.
+  intros [_ Hnd] Hc Hm. cbn [step]. rewrite Hc. cbn [nth_error]. rewrite Hm. cbn [fst set_nth].
+  unfold max_shape_id in Hm.
+  destruct (used_ids_cases (all_ids st)) as [[H1 _]|[H1 _]]; rewrite H1 in Hm; cbn [bind] in Hm; [|discriminate].
+  inversion Hm; subst m. clear Hm.
+  split; [reflexivity|]. unfold all_ids. cbn [shape_ids other_ids].
+  split; [|split; auto].
+  - intros v Hv. apply max_of_used_ge; auto.
+  - apply max_of_used_nonneg. apply num_ids_nonneg.
+Qed.
+
+Theorem turbo_single_proxy_safe k st m :
+  shape_inv st -> caches st = [None] -> max_shape_id (all_ids st) = Ok m ->
+  NoDup (num_ids (shape_ids (fst (run_ops st (SetTurbo 0 true :: repeat (AddMax 0) k))))) /\
+  Forall (fun o => exists n, o = Ok n) (snd (run_ops st (SetTurbo 0 true :: repeat (AddMax 0) k))).
+Proof.
+  intros Hi Hc Hm.
+  destruct (run_ops_cons st (SetTurbo 0 true) (repeat (AddMax 0) k)) as [E1 E2]. rewrite E1, E2.
+  pose proof (turbo_enable st m Hi Hc Hm) as Ht.
+  destruct (turbo_single_proxy k _ _ Ht) as [c' [[_ [_ [Hnd _]]] Hall]].
+  split; auto. constructor; auto.
+  cbn [step]. rewrite Hc. cbn [nth_error]. rewrite Hm. cbn [snd]. eauto.
+Qed.
+
+(** ** errors of the slide-id allocator over attribute strings *)
+Lemma next_slide_id_Z_err used e : next_slide_id_Z used = Err e -> e = StopIter.
+Proof.
+  unfold next_slide_id_Z. destruct (_ <=? _); [discriminate|].
+  destruct (sortZ (filter slide_id_valid used)) as [|v vs]; [discriminate|].
+  apply enum_first_neq_err.
+Qed.
+
+Theorem slide_id_errors ids e : next_slide_id ids = Err e ->
+  (e = ValueErr /\ exists s, In s ids /\ py_int s = Err ValueErr) \/
+  (e = StopIter /\ exists vals, mapM py_int ids = Ok vals /\ next_slide_id_Z vals = Err StopIter).
+Proof.
+  unfold next_slide_id. destruct (mapM py_int ids) as [vals|e'] eqn:Em; cbn [bind].
+  - intros H. pose proof (next_slide_id_Z_err _ _ H); subst. right. split; auto. exists vals; auto.
+  - intros H; inversion H; subst e'. apply mapM_err in Em as [s [Hs He]].
+    pose proof (py_int_err _ _ He); subst. left. split; auto. exists s; auto.
+Qed.
